@@ -690,6 +690,19 @@ fn push_feat(rng: &mut Rng, w: &mut CaseWriter) {
         }
         _ => {}
     }
+    // every 30th record: a NUL byte among the bases (the SC / IN series are NUL-terminated byte arrays)
+    // (only in a trailing soft clip: the bases the reader fills in after the cut feature are then
+    // reference matches; a later substitution would be decoded against a shifted reference base with
+    // the writer's frequency-sorted substitution matrix, which the model does not hold)
+    if rng.chance(1, 30) {
+        if let Some(Kind::SoftClip) = parse_cigar(&cigar).last().map(|o| o.kind()) {
+            let n = parse_cigar(&cigar).last().map(|o| o.len()).unwrap_or(0);
+            if n >= 1 && seq.len() >= n {
+                let i = seq.len() - 1 - rng.below(n as u64) as usize;
+                seq[i] = 0;
+            }
+        }
+    }
     w.push("feat", vec![hex(&refb), start.to_string(), cigar, hex(&seq), hex(&qual)]);
 }
 
